@@ -80,3 +80,9 @@ META["C13"] = {
     "note": "Trusts the independent renderers written from the Connect/gRPC specs; the malformation catalogue covers the classes the statement names, one operator at a time.",
     "technique": "property-based testing (rapid): positive and negative oracle over independent renderers, end-to-end differential check, native fuzzing for crash-freedom",
 }
+
+META["C07"] = {
+    "text": "Suite expansion is compared with an executable form of the statement's iff and the documented name format on generated suites x config-case sets x run modes: exact key-set equality both ways, request markers, default service/method, single server group per permutation, identical results over repeated expansions on fresh maps, and gRPC-peer applicability with marked names against a rule table. Exploration by seeded generation with shrinking.",
+    "note": "Config-case sets come from parseConfig (checked by C06); connect_version_mode unspecified; the gRPC-peer rule table is taken from the code comments because the docs do not spell it out.",
+    "technique": "property-based testing (rapid) against a reference predicate/model",
+}
